@@ -7,6 +7,8 @@ for d in sorted(glob.glob(os.path.join(ROOT, "seeded", "*"))):
     m = json.load(open(os.path.join(d, "meta.json")))
     title = re.sub(r"^#\s*C\d+\s*/\s*m\d\s*\S+\s*", "", open(os.path.join(d, "notes.md")).read().splitlines()[0])
     det = m.get("detected_by") or {}
+    if m.get("obsolete"):
+        det = dict(verdict="obsolete (made harmless by a later fix: " + m["obsolete"][:60] + "...)", first_violation="")
     rows.append("| %s | %s | %s | %s |" % (m["id"], title.replace("|", "/")[:150], det.get("verdict", "not run"), (det.get("first_violation") or "").replace("|", "/")[:140]))
 table = "| seed | change (first line of the author's notes) | verdict of `./check Cxx --tier quick` | first violation line |\n|---|---|---|---|\n" + "\n".join(rows)
 p = os.path.join(ROOT, "DESIGN.md")
